@@ -41,8 +41,16 @@ class Symbolic(SymSymbol):  # type: ignore[misc]  # pylint: disable=too-many-anc
         inner = str(expr)
         display_name = f"{cls_name}({inner})"
 
-        obj = super().__new__(cls, display_name, **assumptions)
+        # NOTE: symbols are cached by name, whereas different arguments can have the same display
+        # name, eg pressure and momentum. Do not share one object between them, and tell them
+        # apart by the argument, see `_hashable_content`.
+        cls._sanitize(assumptions, cls)
+        obj = SymSymbol.__xnew__(cls, display_name, **assumptions)
+        obj.factor = expr
         return obj  # type: ignore[no-any-return]
+
+    def _hashable_content(self) -> tuple[Any, ...]:
+        return (*super()._hashable_content(), self.factor)
 
     def __init__(
         self,
